@@ -666,7 +666,10 @@ def run(ctx):
     ctx.extra['model_impl_mismatches'] = len(mism)
     ctx.assumptions.append('the implementation emulates the integer layers in float32; exact-integer model; one-off differences accepted only inside the float32 error budget of a floor boundary (counted)')
 
-    if not ctx.violations and not ctx.known_printed:
+    if os.environ.get('C14_DEBUG'):
+        for m in mism[:12]:
+            print('MISM', str(m)[:1500])
+    if not ctx.violations:
         if not built:
             ctx.violation('proof-broken', {'theorems': [o[0] for o in ctx.obligations if not o[1]], 'log': getattr(ctx, 'broken_log', '')[-3000:]}, 'Props/C14.v no longer checks', no_input=True)
         elif not model_ok:
